@@ -4,8 +4,14 @@ package world
 // (implemented with the C19 oracle)
 func renderJSON(f *FileSpec) *Rendered {
 	txt := RenderJSONText(f.Items)
+	if f.Layout == 2 {
+		txt = RenderJSONMinified(f.Items)
+	}
 	return &Rendered{Name: f.Name, Text: []byte(txt), Nodes: []*Node{nil}, InsertPoints: []int{len(txt)}}
 }
 
 // RenderJSONText is replaced by the real JSON renderer (json_render.go) once C19 is built.
 var RenderJSONText = func(items []*Item) string { return "{}" }
+
+// RenderJSONMinified renders everything on one line.
+var RenderJSONMinified = func(items []*Item) string { return "{}" }
